@@ -76,6 +76,18 @@ type Client struct {
 	RescanStarts    []int32
 	// delivered RelevantTx notifications (for redelivery faults)
 	deliveredTx []chain.RelevantTx
+
+	// AsyncRescan: Rescan returns at once and the rescan advances only when
+	// the harness calls StepRescan, so that new blocks and reorgs can be
+	// announced (through Deliver) WHILE the rescan is running, as with the
+	// real bitcoind client whose rescan runs in its own goroutine.
+	AsyncRescan bool
+	// BtcdStyleRescan: the rescan reports only the relevant transactions of
+	// each block and RescanFinished, no per-block FilteredBlockConnected /
+	// BlockConnected (btcd's rescan does that; the wallet then catches up its
+	// block hashes itself through GetBlockHash when the rescan finishes).
+	BtcdStyleRescan bool
+	rescanCur       *Block // last block the running rescan has notified (nil: no rescan running)
 }
 
 // NewClient attaches a client to the node. birthday mirrors
@@ -381,6 +393,13 @@ func (c *Client) Rescan(blockHash *chainhash.Hash, addrs []btcutil.Address,
 		return errors.New("Block not found")
 	}
 	c.RescanStarts = append(c.RescanStarts, start.Height)
+	if c.AsyncRescan {
+		c.rescanCur = start
+		out := c.take()
+		c.mu.Unlock()
+		c.flush(out)
+		return nil
+	}
 	// If the start block is not on the best chain any more, rewind to the
 	// fork point first (BitcoindClient.rescan signals disconnected blocks).
 	cur := start
@@ -390,7 +409,7 @@ func (c *Client) Rescan(blockHash *chainhash.Hash, addrs []btcutil.Address,
 	}
 	for h := cur.Height + 1; int(h) < len(c.node.Best); h++ {
 		b := c.node.Best[h]
-		c.filterBlock(b, true)
+		c.rescanBlock(b)
 	}
 	tip := c.node.Tip()
 	// blocks notified by the rescan are not notified again as "new"
@@ -413,11 +432,68 @@ func (c *Client) Rescan(blockHash *chainhash.Hash, addrs []btcutil.Address,
 	return nil
 }
 
+// RescanActive reports whether an asynchronous rescan is still running.
+func (c *Client) RescanActive() bool {
+	c.mu.Lock()
+	defer c.mu.Unlock()
+	return c.rescanCur != nil
+}
+
+// StepRescan advances a running asynchronous rescan by up to n blocks (n <= 0:
+// until it has caught up with the node's tip, which ends it with
+// RescanFinished). Like BitcoindClient.rescan it is reorg-aware: if the block
+// it stands on has left the best chain it signals BlockDisconnected and walks
+// back to the fork point before continuing.
+func (c *Client) StepRescan(n int) int {
+	c.mu.Lock()
+	if c.rescanCur == nil || c.stopped {
+		c.mu.Unlock()
+		return 0
+	}
+	k := 0
+	for n <= 0 || k < n {
+		for !c.node.OnBest(c.rescanCur) {
+			b := c.rescanCur
+			c.out = append(c.out, chain.BlockDisconnected{Block: wtxmgr.Block{Hash: b.Hash, Height: b.Height}, Time: b.Time()})
+			c.rescanCur = c.node.BlockByHash(&b.Msg.Header.PrevBlock)
+		}
+		if c.rescanCur.Hash == c.node.Tip().Hash {
+			tip := c.node.Tip()
+			th := tip.Hash
+			c.out = append(c.out, &chain.RescanFinished{Hash: &th, Height: tip.Height, Time: tip.Time()})
+			c.rescanCur = nil
+			break
+		}
+		nb := c.node.Best[c.rescanCur.Height+1]
+		c.rescanBlock(nb)
+		c.rescanCur = nb
+		k++
+	}
+	out := c.take()
+	c.mu.Unlock()
+	c.flush(out)
+	return k
+}
+
 // ---- notification production (under mu; results go to c.out)
 
 func (c *Client) shouldFilter(ts time.Time) bool {
 	empty := len(c.watchedAddrs) == 0 && len(c.watchedOutPoints) == 0
 	return !(ts.Before(c.birthday) || empty)
+}
+
+// rescanBlock reports one block of a rescan.
+func (c *Client) rescanBlock(b *Block) {
+	if !c.BtcdStyleRescan {
+		c.filterBlock(b, true)
+		return
+	}
+	meta := wtxmgr.BlockMeta{Block: wtxmgr.Block{Hash: b.Hash, Height: b.Height}, Time: b.Time()}
+	if c.shouldFilter(b.Time()) {
+		for _, tx := range b.Msg.Transactions {
+			c.filterTx(tx, &meta, true)
+		}
+	}
 }
 
 func (c *Client) filterBlock(b *Block, notify bool) {
